@@ -169,7 +169,7 @@ class GitSched(graphs.SymSched):
         return out, p.returncode
 
 
-def make(M, K, flags=FLAGS, modes=GM):
+def make(M, K, flags=FLAGS, modes=GM, known_commits_only=False):
     def fn(g):
         import conductor.cli.run as cli_run
         import conductor.cli.where as cli_where
@@ -191,6 +191,8 @@ def make(M, K, flags=FLAGS, modes=GM):
                 g.assume(t != prev)
             tsv.append(t)
         commits_pool = ["NULL"] + ([H(i) for i in range(dag.M)] if dag is not None else [H(0)]) + ["f" * 40]
+        if known_commits_only and dag is not None:
+            commits_pool = [H(i) for i in range(dag.M)]
         for r in range(k):
             c = commits_pool[g.choose("vc%d" % r, len(commits_pool))]
             rows.append({"ts": int(tsv[r]), "commit": None if c == "NULL" else c, "dirty": False})
@@ -395,6 +397,34 @@ def lemma_git_conformance(M):
     return fn
 
 
+def bulk_fn(g):
+    """More versions than any batch size: the closest one may be the 65th record."""
+    import argparse
+    import conductor.cli.where as cli_where
+    pos = (0, 63, 64, 69)[g.choose("position_of_the_version_at_HEAD", 4)]
+    old_is_ancestor = g.flag("others_at_an_ancestor")          # else: at an unrelated (unknown) commit
+    proj = hrun.Project(config="")
+    try:
+        proj.write("COND", "run_experiment(name='e', run='true')\n")
+        for i in range(70):
+            commit = H(1) if i == pos else (H(0) if old_is_ancestor else "f" * 40)
+            proj.add_version("//:e", 100 + i, commit=commit, files={"x": b"1"})
+        dag = Dag(g, 2)
+        sched = GitSched(g, "dag", dag, 1, False)
+        res = hrun.invoke(cli_where.main, argparse.Namespace(task_identifier="//:e", project=False, non_existent_ok=False, debug=False),
+                          str(proj.root), fakeos.Kernel(sched, clock=fakeos.Clock()), timeout=120)
+        D = "70 versions, the one made at HEAD is record #%d, the others at %s" % (pos + 1, "the parent commit" if old_is_ancestor else "an unknown commit")
+        if isinstance(res.status, str):
+            g.require(False, "select:crash:" + res.status[4:], "%s; %s" % (res.exc, D))
+        m_ = re.search(r"e\.task\.(\d+)\s*$", res.out)
+        got = int(m_.group(1)) if (m_ and res.status == 0) else None
+        g.require(got == 100 + pos, "select:where-reports-wrong-version", "cond where selected version %s, the closest one is %d; %s" % (got, 100 + pos, D))
+        g.goal("more than 64 recorded versions of one task")
+        return {"nontrivial": True, "sample": {"case": D, "selected": got}}
+    finally:
+        proj.cleanup()
+
+
 def spaces(tier):
     goals = ["git in use and a recorded version carries a known commit", "two ancestor versions compared by distance",
              "--at-least/--this-commit satisfied by a cached version", "flag combination rejected"]
@@ -406,6 +436,12 @@ def spaces(tier):
                     "exactly 4 commits (symbolic parents: forks and merges, so that a version's commit and C can be unrelated "
                     "ancestors of HEAD), HEAD anywhere, <=1 recorded version, --at-least C for every C", depth=7,
                     preset={"M": 3, "dirty": False}, goals=["--at-least with a commit unrelated to the cached version's"]))
+    sp.append(Space("line3-k3-orders", make(3, 3, flags=("none", "this-commit"), modes=("dag",), known_commits_only=True),
+                    "a linear history of 3 commits, HEAD anywhere, exactly 3 recorded versions made at any of the commits, every order of "
+                    "recording (timestamps are a permutation)", depth=8,
+                    preset={"M": 2, "par1_0": True, "par2_1": True, "par2_0": False, "K": 3, "dirty": False}))
+    sp.append(Space("bulk-70-versions", bulk_fn, "70 recorded versions: 69 made at an older commit and one at HEAD, the one at HEAD recorded "
+                    "first / 64th / 65th / last", depth=3, goals=["more than 64 recorded versions of one task"]))
     if tier == "thorough":
         sp.append(Space("m4-k3", make(4, 3, flags=("none", "this-commit", "at-least"), modes=("dag",)),
                         "<=4 commits incl. merges, <=3 recorded versions, flags {none, --this-commit, --at-least C}", depth=7,
